@@ -4887,3 +4887,74 @@ func c02R16(c *Ctx, r *Report) {
 	r.Check(!raw && formatted != "" && !strings.HasPrefix(formatted, "String("), rule, "runtime.js:printUnion", "floats go through the runtime's formatter", fmt.Sprintf("runtime/wasm/runtime.js:%d", line),
 		"a float is printed with JavaScript's String(): `let z: f64 = 0.0; io::Println(z);` prints 0.0 natively and 0 on wasm, an f32 0.1 prints 0.1 and 0.10000000149011612")
 }
+
+// ---- C03.R19: a composite literal has a form its expected type can take ------------------------------------------------
+
+func init() {
+	lateInits = append(lateInits, func() {
+		props["C03"].Quick = append(props["C03"].Quick, c03R19)
+		props["C03"].Explanation += " (R19) checkCompositeLit reports a literal whose form cannot make a value of the expected type: any composite literal for a primitive type, key/value elements for an array, plain elements for a map."
+	})
+}
+
+func c03R19(c *Ctx, r *Report) {
+	const rule = "C03.R19"
+	r.Describe(rule, "typechecker.checkCompositeLit: a branch on *types.PrimitiveType, the *types.ArrayType branch (under a *ast.KeyValueExpr assertion) and the *types.MapType branch (in the else of the key/value test) each reach Diagnostics.Add")
+	fn := c.LookupFn(pkgTC, "checkCompositeLit")
+	bagAdd := c.LookupFn("internal/diagnostics", "(*DiagnosticBag).Add")
+	if !r.Anchor(rule, fn != nil && bagAdd != nil, "typechecker.checkCompositeLit / DiagnosticBag.Add") {
+		return
+	}
+	info := fn.Info()
+	reports := func(n ast.Node) bool {
+		hit := false
+		ast.Inspect(n, func(x ast.Node) bool {
+			if cl, ok := x.(*ast.CallExpr); ok {
+				if f := callee(info, cl); f != nil && (f == bagAdd.Obj || (f.Pkg() == fn.Obj.Pkg() && f != fn.Obj && reachesAdd(c, f, bagAdd.Obj, 0) && strings.HasPrefix(f.Name(), "report"))) {
+					hit = true
+				}
+			}
+			return true
+		})
+		return hit
+	}
+	found := map[string]bool{}
+	for _, st := range fn.Decl.Body.List {
+		ifs, ok := st.(*ast.IfStmt)
+		if !ok || ifs.Init == nil {
+			continue
+		}
+		as, ok := ifs.Init.(*ast.AssignStmt)
+		if !ok || len(as.Rhs) != 1 {
+			continue
+		}
+		ta, ok := as.Rhs[0].(*ast.TypeAssertExpr)
+		if !ok || ta.Type == nil {
+			continue
+		}
+		t := exprStr(ta.Type)
+		switch {
+		case strings.HasSuffix(t, "PrimitiveType"):
+			found["primitive"] = reports(ifs.Body)
+		case strings.HasSuffix(t, "ArrayType"):
+			// the report sits under a *ast.KeyValueExpr assertion
+			ast.Inspect(ifs.Body, func(x ast.Node) bool {
+				if inner, ok := x.(*ast.IfStmt); ok && inner.Init != nil && strings.Contains(exprStr(inner.Init.(*ast.AssignStmt).Rhs[0]), "KeyValueExpr") && reports(inner.Body) {
+					found["array"] = true
+				}
+				return true
+			})
+		case strings.HasSuffix(t, "MapType"):
+			ast.Inspect(ifs.Body, func(x ast.Node) bool {
+				if inner, ok := x.(*ast.IfStmt); ok && inner.Else != nil && reports(inner.Else) {
+					found["map"] = true
+				}
+				return true
+			})
+		}
+	}
+	for _, k := range []string{"primitive", "array", "map"} {
+		r.Check(found[k], rule, fn.Name(), "a literal of the wrong form for a "+k+" type is reported", c.pos(fn.Decl.Pos()),
+			"the literal is accepted whatever its form: `let x: i32 = [1, 2];`, `let a: []i32 = { .X = 1 };` and `let m: map[str]i32 = [1, 2];` pass the type checker and are stopped only by MIR lowering (\"unsupported: composite literal\")")
+	}
+}
